@@ -183,12 +183,17 @@ PROPERTIES["C04"] = {
         M("c04_actor_handshake_output", "d_c04", "actor_handshake_output",
           "tokio session actor: apply_engine_output_handshake (coroutine MIR) on a hand-assembled actor whose engine has just emitted HandshakeComplete + DeliverMessage for one read (v3 NULL and ZMTP/2.0 transcripts); socket writes and the pipe manager are stubbed",
           budget={"quick": 120, "thorough": 200}, required_covers=["c04.actor.handler-ran"]),
+        M("c04_read_cycles", "d_c04", "read_cycles",
+          {"quick": "ZmqMessageProcessor::read_and_process (the tokio session's read cycle: awaited read, greedy try_read_chunk drain, on_network_bytes; coroutine MIR) over a scripted stream of 1..2 data frames (symbolic payload byte) that ends with EOF: every split of the bytes over awaited reads and greedy chunks with piece sizes {1 byte, to the end of the frame, everything}, the end of the stream seen by the greedy drain or by the next awaited read",
+           "thorough": "all piece sizes"},
+          params={"quick": {}, "thorough": {"all_piece_sizes": True}}, budget={"quick": 600, "thorough": 2400},
+          required_covers=["c04.reader.eof-seen-by-greedy-drain", "c04.reader.all-delivered"]),
     ],
     "assumptions": MIRSYM_TRUST + ["the actor value for c04_actor_handshake_output is assembled by the driver (I/O halves absent, pipe manager reports 'not attached'); 'delivered' is judged by the frames still being reachable from the actor's state after the handler returns"],
     "manifest": {
         "engine": "mirsym",
         "technique": "symbolic execution of the sans-IO engine's MIR (z3): differential run of the same transcript under every segmentation; plus execution of the session actor's handshake-output handler",
-        "text": "For four honest peer transcripts with symbolic identity/payload bytes, the sequence of HandshakeComplete/DeliverMessage actions, the bytes sent and the unconsumed residue are identical for every segmentation into 2 (quick) or 3 (thorough) reads, including cuts inside the greeting, inside frame headers and exactly at the end of the handshake; data sharing a read with the last handshake byte is emitted by the engine.",
+        "text": "For four honest peer transcripts with symbolic identity/payload bytes, the sequence of HandshakeComplete/DeliverMessage actions, the bytes sent and the unconsumed residue are identical for every segmentation into 2 (quick) or 3 (thorough) reads, including cuts inside the greeting, inside frame headers and exactly at the end of the handshake; data sharing a read with the last handshake byte is emitted by the engine. The session's read cycle hands every byte it read to the engine however the peer's last frames are split over awaited reads and greedy drain chunks and wherever the end of the stream is observed: frames written right before the peer closed are delivered.",
         "design_ref": "DESIGN.md §5 C04",
         "note": "Engine level, plus one step of the tokio session actor: data delivered by the engine together with HandshakeComplete is kept by apply_engine_output_handshake (it used to be dropped: finding F12, fixed). NOT claimed: the io_uring handler, kernel read scheduling, CURVE/NOISE transcripts, the operational loop draining what was kept (shown only by the native replay).",
     },
@@ -312,16 +317,22 @@ PROPERTIES["C01"] = {
            "thorough": "all sequences of 5 operations"},
           params={"quick": {"ops": 4, "chunk_len": 2}, "thorough": {"ops": 5, "chunk_len": 2}}, budget={"quick": 300, "thorough": 2400},
           required_covers=["egress.partial-write", "egress.priority-behind-partial-head"]),
+        M("c01_batch_assembly_carryover", "d_c01", "carryover_branch",
+          {"quick": "the carry-over branch of the session actor's operational loop (SessionConnectionActorX::run_loop, executed in region mode inside its coroutine MIR: from the `!core_carryover.is_empty()` test to the hand-over of the finished batch): 1..3 messages in the carry-over, 0..3 in the pipe from the socket, every message size symbolic (< 1 MiB), SNDBATCH_COUNT 1..8, SNDBATCH_BYTES and its physical ceiling symbolic, SNDHWM 1..8 symbolic",
+           "thorough": "1..4 messages in the carry-over, 0..4 in the pipe"},
+          params={"quick": {"max_carry": 3, "max_pipe": 3}, "thorough": {"max_carry": 4, "max_pipe": 4}}, budget={"quick": 600, "thorough": 3000},
+          required_covers=["c01.batch.assembled", "c01.batch.topped-up-from-pipe", "c01.batch.left-carry-over"]),
     ],
-    "assumptions": MIRSYM_TRUST + ["VecDeque is modelled as a list"],
+    "assumptions": MIRSYM_TRUST + ["VecDeque is modelled as a list",
+                                   "region mode: the coroutine object of run_loop is assembled by the driver (variable places taken from the coroutine's debug-info lines in the MIR dump), execution starts at the loop's first basic block and stops at AdaptiveThrottle::begin_work_bulk; Msg::size returns the symbolic size, the pipe hands out its oldest messages, ZmtpEngine::config returns the symbolic options"],
     "manifest": {
         "engine": "mirsym",
-        "technique": "symbolic execution of the session's EgressBuffer (MIR, z3) against a reference byte stream under every partial-write split",
-        "text": "The bytes handed to the socket writer are, chunk for chunk, exactly the pushed chunks in order (priority chunks ahead of queued data but never inside a chunk that is partly on the wire), for every split of the stream into partial writes; pending message/byte counters are exact.",
-        "design_ref": "DESIGN.md §5 C01 kernel 1",
-        "note": "Only the write-queue kernel of the property. NOT claimed: batch assembly in the session actor, DEALER pending queue, HWM back-pressure, transports, runtime flavours, end-to-end exactly-once delivery.",
+        "technique": "region-mode symbolic execution of the session actor's batch-assembly loop inside its coroutine MIR (z3 decides every size comparison); symbolic execution of the session's EgressBuffer (MIR, z3) against a reference byte stream under every partial-write split",
+        "text": "The bytes handed to the socket writer are, chunk for chunk, exactly the pushed chunks in order (priority chunks ahead of queued data but never inside a chunk that is partly on the wire), for every split of the stream into partial writes; pending message/byte counters are exact. Batch assembly from the carry-over: for every carry-over / pipe content within the bound and every message size and batch option, the batch handed to the framer followed by what stays in the carry-over and in the pipe is exactly the send order - nothing lost, duplicated or overtaken - and the batch is never empty.",
+        "design_ref": "DESIGN.md §5 C01",
+        "note": "Two kernels of the property (write queue, carry-over batch assembly). NOT claimed: the first-batch path of the operational loop (inside the select! arm), the io_uring handler's batching, DEALER pending queue, HWM back-pressure, transports, runtime flavours, end-to-end exactly-once delivery.",
     },
-    "outside": "everything above the EgressBuffer: actors, pipes, transports",
+    "outside": "first-batch path, io_uring batching, DEALER pending queue, HWM back-pressure, transports",
 }
 PROPERTIES["C19"]["mirsym"].append(PROPERTIES["C01"]["mirsym"][0])
 
